@@ -185,6 +185,12 @@ func genC09(tier string, rng *Rng) {
 		scs = append(scs, sc)
 		hist[mode+"-slow-consumer"]++
 	}
+	// several connections, the panel changing its behaviour (and the negotiated encoding) from one to
+	// the next; six lists submitted on the LAST connection must arrive there in ITS encoding (matrix.go)
+	for _, sc := range matrixScenarios(tier, true) {
+		scs = append(scs, sc)
+		hist["matrix"]++
+	}
 	meta(map[string]interface{}{"c09_scenarios_by_shape": hist, "scenarios": len(scs)})
 	runBatch(scs, 16)
 	meta(map[string]interface{}{"reruns": rerunCount, "reruns_rescued": rerunRescued})
